@@ -66,7 +66,10 @@ func i64(s string) int64 {
 
 // ---- outcome encoding ----
 func okBytes(b []byte) string { return "ok:" + hex.EncodeToString(b) }
-func okStr(s string) string   { return "ok:" + hex.EncodeToString([]byte(s)) }
+func okStr(s string) string {
+	holdS("result", s)
+	return "ok:" + hex.EncodeToString([]byte(s))
+}
 func okNum(v uint64) string   { return "ok:n" + strconv.FormatUint(v, 10) }
 func errOut(e error) string   { return "err:" + hex.EncodeToString([]byte(e.Error())) }
 func strOrErr(s string, e error) string {
